@@ -23,22 +23,22 @@ Fixpoint index_sum (rev_syms : list (option str)) (i : N) : N :=
 Definition get_index_from_selfies (syms : list (option str)) : N := index_sum (rev syms) 0.
 
 (* get_selfies_from_index(index) *)
+Fixpoint syms_of_digits (ds : list N) : res (list str) :=
+  match ds with
+  | [] => Ok []
+  | d :: r => match nth_error index_alphabet (N.to_nat d) with
+              | Some s => do t <- syms_of_digits r; Ok (s :: t)
+              | None => Err IndexError
+              end
+  end.
+
 Definition get_selfies_from_index (index : Z) : res (list str) :=
   if (index <? 0)%Z then Err IndexError else
   let n := Z.to_N index in
   match index_alphabet with
   | [] => Err IndexError
   | a0 :: _ =>
-    if (n =? 0)%N then Ok [a0] else
-    let ds := digits alphabet_base n in
-    (fix go (ds : list N) : res (list str) :=
-       match ds with
-       | [] => Ok []
-       | d :: r => match nth_error index_alphabet (N.to_nat d) with
-                   | Some s => do t <- go r; Ok (s :: t)
-                   | None => Err IndexError
-                   end
-       end) ds
+    if (n =? 0)%N then Ok [a0] else syms_of_digits (digits alphabet_base n)
   end.
 
 Definition process_branch_symbol (s : str) : option (Z * nat) := assoc s branch_cache.
